@@ -831,7 +831,7 @@ def run(chk):
         "sqfs_tree_node_get_path followed by canonicalize_name on the same buffer, everything else is a constant or a "
         "command-line field; (c) constant hardening flags (O_CREAT|O_EXCL no O_TRUNC, AT_SYMLINK_NOFOLLOW, lsetxattr, "
         "fchmodat guarded by !S_ISLNK); (d) duplicate check and O_EXCL creation pass dominate the passes that re-open "
-        "by path, failed chdir never unpacks; (e) command-line paths canonicalised; (f) get_path refuses '/', '.', '..'. Further rules: K2-sorttotal (the sort returns its input unsorted only in the trivial cases or after a full adjacent scan), K2-walk (the sorting/checking pass reaches every directory), K12-flags also rejects name-creating calls outside the reviewed set; K1-order follows the check into helpers.")
+        "by path, failed chdir never unpacks; (e) command-line paths canonicalised; (f) get_path refuses '/', '.', '..'. Further rules: K2-sorttotal (the sort returns its input unsorted only in the trivial cases or after a full adjacent scan), K2-walk (the sorting/checking pass reaches every directory), K12-flags also rejects name-creating calls outside the reviewed set; K1-order follows the check into helpers. Provenance looks through copies and hand-filled buffers: a strdup is what it copied, a malloc'ed path is what was memcpy'ed / sprintf'ed into it.")
     chk.assumptions = ["that sort + adjacent compare finds every duplicate, and races with other processes, are not decided"]
     from .. import taint
     taint.CONTENT[0] = True      # a copy or a hand-filled buffer is judged by what was copied into it
@@ -848,6 +848,9 @@ def run(chk):
     ordering_rule(chk, prog, mset)
     cmdline_rule(chk, prog)
     get_path_rule(chk, prog)
+    from .c16 import rule_type_twins
+    rule_type_twins(chk, prog)
+    chk.floor("K12-twins", 5)
     chk.floor("K1-gate", 7)
     chk.floor("K1-sanitise", 5)
     chk.floor("K12-flags", 5)
